@@ -455,10 +455,13 @@ func VerifHarness_C01_O7() { VerifHarness_C18_O2() }
 // round.
 func VerifHarness_C01_O4() {
 	R := 2
+	n := 3
 	if verifTier() > 0 {
-		R = 3
+		n = 3 + verifChoice("n", 2)
+		if n == 3 {
+			R = 3
+		}
 	}
-	n := 3 + verifChoice("n", 2)
 	vn := verifNewNet(n, 100)
 	h := vn.h
 	verifAbstractEvent(vn, "x", 0, 5)
